@@ -40,12 +40,16 @@ class GeminiClientProtocol(asyncio.Protocol):
         url: str,
         response_future: asyncio.Future,
         send_immediately: bool = True,
+        decode_text: bool = True,
     ):
         """Initialize the client protocol.
 
         Args:
             url: The Gemini URL to request.
             response_future: Future to set with the final GeminiResponse.
+            decode_text: If True (default), text/* bodies are decoded to str
+                using the declared charset. If False, every body is returned
+                as the raw bytes received (for relaying responses unchanged).
             send_immediately: If True (default), the request is written as soon
                 as the connection is established. If False, nothing is sent
                 until send_request() is called, so the caller can verify the
@@ -54,6 +58,7 @@ class GeminiClientProtocol(asyncio.Protocol):
         self.url = url
         self.response_future = response_future
         self.send_immediately = send_immediately
+        self.decode_text = decode_text
         self.request_sent = False
         self.transport: asyncio.Transport | None = None
         self.buffer = b""
@@ -195,7 +200,9 @@ class GeminiClientProtocol(asyncio.Protocol):
         if 20 <= self.status < 30:  # type: ignore
             # Check if this is text content by examining MIME type
             mime_type = (self.meta or "").split(";")[0].strip().lower()
-            is_text = mime_type.startswith("text/") or mime_type == ""
+            is_text = self.decode_text and (
+                mime_type.startswith("text/") or mime_type == ""
+            )
 
             if is_text:
                 # Get charset from meta if specified, default to utf-8
